@@ -130,30 +130,34 @@ def stripPrefix : List Char → List Char → Option (List Char)
   | _ :: _, [] => none
   | p :: ps, c :: cs => if p = c then stripPrefix ps cs else none
 
-/-- One block at the front of `s`: `(label, der, rest)`.
+/-- The label cut out of a `-----BEGIN <label>-----` line (11 characters in front, 5 behind). -/
+def labelOfLine (l0 : List Char) : List Char := (l0.drop 11).take (l0.length - 16)
 
-1. the first line, up to the first `\n` (which must exist), must be `beginLine label` for the label
-   cut out of it, and the label must be printable ASCII;
-2. the body is everything up to the next `-`; without its `\n` it must be strict base64 of some
-   `der`, and it must be laid out exactly as 64-column lines each ended by `\n`;
-3. then `endLine label` and `\n` must follow. -/
-def readBlock (s : List Char) : Option (List Char × List UInt8 × List Char) :=
-  match s.span (fun c => c != '\n') with
-  | (l0, '\n' :: r0) =>
-    let label := (l0.drop 11).take (l0.length - 16)
-    if l0 = beginLine label ∧ labelOkChars label = true then
-      match r0.span (fun c => c != '-') with
-      | (body, r1) =>
-        match b64std_decode (body.filter (fun c => c != '\n')) with
-        | some der =>
-          if body = unlines (bodyLines der) then
-            match stripPrefix (endLine label ++ ['\n']) r1 with
-            | some rest => some (label, der, rest)
-            | none => none
-          else none
-        | none => none
+/-- What follows the `BEGIN` line: the body is everything up to the next `-`; without its `\n` it
+must be strict base64 of some `der`, and it must be laid out exactly as 64-column lines each ended
+by `\n`; then `endLine label` and `\n` must follow. -/
+def readBody (label : List Char) (r0 : List Char) : Option (List Char × List UInt8 × List Char) :=
+  let body := r0.takeWhile (fun c => c != '-')
+  match b64std_decode (body.filter (fun c => c != '\n')) with
+  | some der =>
+    if body = unlines (bodyLines der) then
+      match stripPrefix (endLine label ++ ['\n']) (r0.dropWhile (fun c => c != '-')) with
+      | some rest => some (label, der, rest)
+      | none => none
     else none
-  | _ => none
+  | none => none
+
+/-- One block at the front of `s`: `(label, der, rest)`.  The first line, up to the first `\n`
+(which must exist; the head of the `dropWhile` result is that `\n`), must be `beginLine label` for
+the label cut out of it, and the label must be printable ASCII; then `readBody`. -/
+def readBlock (s : List Char) : Option (List Char × List UInt8 × List Char) :=
+  let l0 := s.takeWhile (fun c => c != '\n')
+  match s.dropWhile (fun c => c != '\n') with
+  | [] => none
+  | _ :: r0 =>
+    if l0 = beginLine (labelOfLine l0) ∧ labelOkChars (labelOfLine l0) = true then
+      readBody (labelOfLine l0) r0
+    else none
 
 /-- Strict reader of one block with a given label and nothing after it. -/
 def decodeChars (label : List Char) (s : List Char) : Option (List UInt8) :=
